@@ -14,15 +14,15 @@
 (assert
  (>= alloc@0 1))
 (assert
- (let (($x5052 (>= in_e 0)))
- (and $x5052 (< in_e alloc@0))))
+ (let (($x15246 (>= in_e 0)))
+ (and $x15246 (< in_e alloc@0))))
 (assert
  (not (= in_e 0)))
 (assert
  (not (= in_e 0)))
 (assert
- (let ((?x3458 (select |H\|analysis.Parsing\|Description\|Str@0| in_e)))
-(let ((?x4829 (slen ?x3458)))
-(let (($x3407 (<= 0 ?x4829)))
-(not $x3407)))))
+ (let ((?x18935 (select |H\|analysis.Parsing\|Description\|Str@0| in_e)))
+(let ((?x18426 (slen ?x18935)))
+(let (($x17102 (<= 0 ?x18426)))
+(not $x17102)))))
 (check-sat)
